@@ -31,7 +31,14 @@ where
             1u32.into(),
         );
 
-        let lvl_1_ks: usize = self.glwe_keyswitch_tmp_bytes_default(glwe_infos, glwe_infos, key_infos);
+        // The key-switch reads the LWE sample re-laid out as a rank-1 GLWE in the key's radix (see `glwe_from_lwe`).
+        let a_infos: GLWELayout = GLWELayout {
+            n: key_infos.n(),
+            base2k: key_infos.base2k(),
+            k: lwe_infos.max_k(),
+            rank: 1u32.into(),
+        };
+        let lvl_1_ks: usize = self.glwe_keyswitch_tmp_bytes_default(glwe_infos, &a_infos, key_infos);
         let lvl_1_a_conv: usize = if lwe_infos.base2k() == key_infos.base2k() {
             0
         } else {
